@@ -24,7 +24,7 @@ from collections import OrderedDict
 import numpy as np
 import torch
 
-from mc.core import Acc, exc_text, guarded, h64
+from mc.core import Acc, exc_text, guarded, h64, tensor_bytes
 
 PROPERTY = "C20"
 RULE = (
@@ -162,6 +162,55 @@ def raise_site(e) -> str:
     return f"raises={type(e).__name__}{where}"
 
 
+def _closure_tensors(fn, exclude_ids):
+    """Every tensor the operation closes over that is NOT a differentiated input: fixed images, points, masks,
+    module buffers (except the u / v / p buffers a transform recomputes by design).  name -> tensor."""
+    found = OrderedDict()
+    seen = set()
+
+    def add(name, v, depth=0):
+        if id(v) in seen or depth > 3:
+            return
+        seen.add(id(v))
+        if isinstance(v, torch.Tensor):
+            if id(v) not in exclude_ids:
+                found[name] = v
+        elif isinstance(v, torch.nn.Module):
+            for bn, b_ in v.named_buffers():
+                if bn.split(".")[-1] not in ("u", "v", "p") and id(b_) not in exclude_ids:
+                    found[f"{name}.{bn}"] = b_
+        elif isinstance(v, dict):
+            for k, x in v.items():
+                add(f"{name}[{k}]", x, depth + 1)
+        elif isinstance(v, (list, tuple)):
+            for i, x in enumerate(v):
+                add(f"{name}[{i}]", x, depth + 1)
+        elif callable(v) and getattr(v, "__closure__", None):
+            walk(v, depth + 1)
+
+    def walk(f, depth=0):
+        code = getattr(f, "__code__", None)
+        cells = getattr(f, "__closure__", None) or ()
+        names = code.co_freevars if code is not None else [str(i) for i in range(len(cells))]
+        for nm, cell in zip(names, cells):
+            try:
+                add(nm, cell.cell_contents, depth)
+            except ValueError:
+                pass
+
+    walk(fn)
+    return found
+
+
+def _mutation_check(name, D, res, snap_fixed, snap_inputs, inputs0):
+    for k, (v, b0) in snap_fixed.items():
+        if tensor_bytes(v) != b0:
+            res["problems"].append((f"{name}/D={D}/input-mutated/{k.split('.')[-1].split('[')[0]}", f"tensor '{k}' handed to the operation (not differentiated) was modified in place by evaluating it"))
+    for k, t in inputs0:
+        if tensor_bytes(t) != snap_inputs[k]:
+            res["problems"].append((f"{name}/D={D}/input-mutated/wrt={k}", f"differentiated input '{k}' differs after all perturbations were undone: the operation modifies it in place"))
+
+
 def _noise(at, flat, n):
     """max |second difference| of L over 9 points spaced 1.5e-8 * scale along up to three coordinates."""
     worst = 0.0
@@ -197,6 +246,12 @@ def check_entry(name, D, tab, tier):
         return res
     L, S, mode = r
     res["mode"] = mode
+    inputs0 = list(ent.inputs.items())
+    # by construction: nothing the operation is given may be modified by evaluating it (a caller's image that is
+    # shifted by every call would silently corrupt every later evaluation, finite differences included)
+    fixed = _closure_tensors(ent.fn, {id(t) for _, t in inputs0} | {id(v) for v in ent.storage.values()})
+    snap_fixed = {k: (v, tensor_bytes(v)) for k, v in fixed.items()}
+    snap_inputs = {k: tensor_bytes(t) for k, t in inputs0}
     if not torch.isfinite(L):
         res["problems"].append((f"{name}/D={D}/forward/nonfinite", f"functional of the output is {float(L)}"))
         return res
@@ -209,6 +264,30 @@ def check_entry(name, D, tab, tier):
         if st == "raises":
             res["problems"].append((f"{name}/D={D}/backward/{raise_site(grads)}", "autograd.grad: " + exc_text(grads)))
             return res
+    # a second evaluation (forward + backward) must reproduce the first: state carried over between calls
+    # (in-place edits of inputs, stale buffers) shows up here
+    res["evals"] += 1
+    st, r2 = guarded(run)
+    if st == "raises":
+        res["problems"].append((f"{name}/D={D}/second-evaluation/{raise_site(r2)}", "second forward evaluation: " + exc_text(r2)))
+        return res
+    L2 = r2[0]
+    rep_tol = C * EPS[mode] * max(S, 1e-300) * 8
+    if not abs(float(L2) - float(L)) <= rep_tol:
+        res["problems"].append((f"{name}/D={D}/second-evaluation-differs", f"L = {float(L):.12g} on the first call, {float(L2):.12g} on the second (tol {rep_tol:.1e})"))
+    elif L.requires_grad and L2.requires_grad:
+        st, grads2 = guarded(torch.autograd.grad, L2, [t for _, t in inputs], allow_unused=True)
+        if st == "raises":
+            res["problems"].append((f"{name}/D={D}/second-evaluation/backward/{raise_site(grads2)}", "second autograd.grad: " + exc_text(grads2)))
+        else:
+            for (iname, t), g1, g2 in zip(inputs, grads, grads2):
+                if (g1 is None) != (g2 is None):
+                    res["problems"].append((f"{name}/D={D}/wrt={iname}/second-gradient-differs", "gradient is None in one of two identical evaluations"))
+                elif g1 is not None:
+                    gm = float(g1.detach().abs().max()) if g1.numel() else 0.0
+                    d12 = float((g1.detach().double() - g2.detach().double()).abs().max()) if g1.numel() else 0.0
+                    if not d12 <= C * EPS[mode] * max(gm, S) * 8:
+                        res["problems"].append((f"{name}/D={D}/wrt={iname}/second-gradient-differs", f"max |g1 - g2| = {d12:.3e} between two identical evaluations (max |g| {gm:.3e})"))
     for (iname, t), g in zip(inputs, grads):
         n = t.numel()
         gad = np.zeros(n) if g is None else g.detach().double().reshape(-1).numpy().copy()
@@ -327,6 +406,7 @@ def check_entry(name, D, tab, tier):
             )
         res["inputs"][iname] = {"n": n, "nontrivial": n_nontriv, "undefined": n_undef, "bad": nbad, "G": G}
         res["outcome"].append((iname, [float(v) for v in np.round(np.where(fin, f1, 0.0) / max(G, 1e-300), 4)]))
+    _mutation_check(name, D, res, snap_fixed, snap_inputs, inputs0)
     return res
 
 
@@ -465,6 +545,19 @@ def _mk_transform_entries():
             tr = S.ImageTransformer(t).double()
             return Entry(f"{kind}.ImageTransformer", _params(t), lambda: tr(img))
 
+        if kind in ("AffineTransform", "DDF", "FFD", "SVF"):
+            for pad in (0.25, -3.5):
+                def b_trpad(D, tab, tier, kind=kind, pad=pad):
+                    import deepali.spatial as S
+
+                    t = _transform(kind, D, tier, tab)
+                    if t is None:
+                        return None
+                    img = image(tuple(t.grid().shape), tab, 4, C_=1, N=1)
+                    tr = S.ImageTransformer(t, padding=pad).double()
+                    return Entry(f"{kind}.ImageTransformer(padding={pad})", _params(t), lambda: tr(img))
+
+                ENTRIES[f"transform/{kind}/ImageTransformer/padding={pad}"] = (b_trpad, (2, 3))
         if kind in POINT_VIEWS:
             def b_pts(D, tab, tier, kind=kind):
                 import deepali.spatial as S
@@ -679,6 +772,41 @@ def _(D, tab, tier):
     img = leaf(image(shape, tab, 6, C_=1))
     co = leaf(gen((1,) + tuple(grid_shape(D, tier, True)) + (D,), tab, 7, -0.8, 0.8))
     return Entry("grid_sample", OrderedDict(data=img, grid=co), lambda: U.grid_sample(img, co, padding=-3.5))
+
+
+for _pad in (0.25, -3.5):
+    for _fn in ("grid_sample", "sample_image", "warp_image", "SampleImage", "TransformImage"):
+        def _b(D, tab, tier, fn=_fn, pad=_pad):
+            U = _U()
+            from deepali.core.grid import Grid
+            import deepali.modules as M
+
+            shape = grid_shape(D, tier)
+            g = Grid(shape=shape)
+            img = image(shape, tab, 94, C_=1)  # fixed image of the caller: float64, requires no grad
+            small = tuple(grid_shape(D, tier, True))
+            if fn == "grid_sample":
+                co = leaf(gen((1,) + small + (D,), tab, 95, -0.85, 0.85))
+                return Entry(fn, OrderedDict(grid=co), lambda: U.grid_sample(img, co, padding=pad))
+            if fn == "sample_image":
+                co = leaf(gen((1, 7, D), tab, 96, -0.85, 0.85))
+                return Entry(fn, OrderedDict(coords=co), lambda: U.sample_image(img, co, padding=pad))
+            if fn == "warp_image":
+                flow = leaf(smooth_field(D, shape, tab, 97, amp=0.15).movedim(1, -1).contiguous())
+                coords = g.coords(dtype=torch.float64).unsqueeze(0)
+                return Entry(fn, OrderedDict(flow=flow), lambda: U.warp_image(img, coords, flow=flow, padding=pad))
+            tg = Grid(shape=small)
+            if fn == "SampleImage":
+                m = M.SampleImage(target=tg, source=g, padding=pad).double()
+                co = leaf(tg.coords(dtype=torch.float64).unsqueeze(0) * 0.9 + 0.03 * gen((1,) + small + (D,), tab, 98))
+                return Entry(fn, OrderedDict(grid=co), lambda: m(co, img))
+            if D == 2:
+                return None  # a (1, 2, 3) tensor is ambiguous for TransformImage in 2-D (unbatched flow vs batched affine)
+            m = M.TransformImage(target=tg, source=g, padding=pad).double()
+            a = leaf(torch.eye(D, D + 1, dtype=torch.float64).unsqueeze(0) + 0.15 * gen((1, D, D + 1), tab, 99))
+            return Entry(fn, OrderedDict(transform=a), lambda: m(a, img))
+
+        ENTRIES[f"core/scalar-padding={_pad}/fixed-image/{_fn}"] = (_b, (2, 3))
 
 
 @entry("core/sample_image")
